@@ -26,13 +26,15 @@ FUNCS = [
     ("distributed_shampoo/distributed_shampoo.py", "DistributedShampoo._compute_filtered_grad_list"),
     ("distributed_shampoo/distributed_shampoo.py", "DistributedShampoo._update_momentum"),
     ("distributed_shampoo/distributed_shampoo.py", "DistributedShampoo._instantiate_grafting"),
+    ("distributed_shampoo/distributed_shampoo.py", "DistributedShampoo._apply_decoupled_weight_decay"),
+    ("distributed_shampoo/distributed_shampoo.py", "DistributedShampoo._add_l2_regularization"),
     ("distributed_shampoo/utils/shampoo_preconditioner_list.py", "AdagradPreconditionerList.__init__"),
     ("distributed_shampoo/utils/shampoo_preconditioner_list.py", "AdagradPreconditionerList.update_preconditioners"),
     ("distributed_shampoo/utils/shampoo_preconditioner_list.py", "AdagradPreconditionerList.precondition"),
     ("distributed_shampoo/utils/shampoo_preconditioner_list.py", "SGDPreconditionerList.precondition"),
 ]
 TRUSTED = [
-    "ASSUMED contract of torch.optim.{SGD,Adagrad,RMSprop,Adam,AdamW}: the documented single-tensor update rules restated in checks/c02.py (validated against the real classes natively every run — evidence, not proof)",
+    "oracle = the REAL torch.optim._single_tensor_{sgd,adagrad,rmsprop,adam,adamw} functions shadow-executed on the same symbolic state (their torch ops by the same pointwise contracts as the repo's); the optimizer classes' state bookkeeping around them (step counters, buffer creation) is validated natively",
     "correspondence side conditions (stated as preconditions): SGD dampening = 0 (torch initialises the momentum buffer with the first gradient), Adagrad lr_decay = 0 and initial_accumulator_value = 0, RMSprop centered = False and momentum = 0, per-parameter step count = group step count, second-moment state >= 0",
     "axiom instances: b^t = b * b^(t-1); 0 < b^t < 1 for 0 < b < 1, t >= 1; sqrt(x) >= 0 and sqrt(x)^2 = x for x >= 0; Frobenius-norm homogeneity ||c A|| = |c| ||A||",
     "machine arithmetic treated as mathematical; blocking/merging transparency inherited from C05 (directions are pointwise)",
@@ -90,6 +92,41 @@ def torch_update(target, b):
     return dict(w=w0 - (lr / bc1) * (m / denom), F=m, V=v)
 
 
+def torch_oracle(target, h, NB):
+    """Shadow-executes the REAL torch.optim single-tensor function of the grafted method on the same symbolic pre-state
+    (fresh proxies over the same array constants).  Returns per block dict(w=..., F/V/M=...) of SymTensors."""
+    import torch
+    from torch.optim import adagrad, adam, adamw, rmsprop, sgd
+    ft = FakeTorch()
+    out = []
+    mods = [(m, "torch", ft) for m in (sgd, adagrad, rmsprop, adam, adamw)]
+    with rebind(mods):
+        for b in range(NB):
+            w, g = SymTensor.array(f"w{b}", torch.float32), SymTensor.array(f"g{b}", torch.float32)
+            F, M, V = SymTensor.array(f"F{b}", torch.float32), SymTensor.array(f"M{b}", torch.float32), SymTensor.array(f"V{b}", torch.float32)
+            step_t = SymTensor.int_scalar(SymInt(h["t"].t - 1))
+            r = dict(w=w)
+            if target == "sgd":
+                sgd._single_tensor_sgd([w], [g], [M], None, None, weight_decay=h["wd"], momentum=h["mu"], lr=h["lr"], dampening=h["damp"],
+                                       nesterov=h["nesterov"], maximize=False, has_sparse_grad=False)
+                r["M"] = M
+            elif target == "adagrad":
+                adagrad._single_tensor_adagrad([w], [g], [V], [step_t], None, None, lr=h["lr"], weight_decay=h["wd"], lr_decay=0.0, eps=h["eps_g"],
+                                               has_sparse_grad=False, maximize=False, differentiable=False, has_complex=False)
+                r["V"] = V
+            elif target == "rmsprop":
+                rmsprop._single_tensor_rmsprop([w], [g], [V], [], [], [step_t], lr=h["lr"], alpha=h["beta2g"], eps=h["eps_g"], weight_decay=h["wd"], momentum=0.0,
+                                               centered=False, maximize=False, differentiable=False, capturable=False, has_complex=False)
+                r["V"] = V
+            else:
+                fn_ = adam._single_tensor_adam if target == "adam" else adamw._single_tensor_adamw
+                fn_([w], [g], [F], [V], [], [step_t], None, None, amsgrad=False, has_complex=False, beta1=h["beta1"], beta2=h["beta2g"], lr=h["lr"],
+                    weight_decay=h["wd"], eps=h["eps_g"], maximize=False, capturable=False, differentiable=False)
+                r["F"], r["V"] = F, V
+            out.append(r)
+    return out
+
+
 def _correspondence(target, h):
     """Hyperparameter correspondence (README examples) + warm-up + side conditions."""
     c = [h["use_graft"].t if isinstance(h["use_graft"], SymBool) else z3.BoolVal(True)]
@@ -122,7 +159,8 @@ def _warmup_case(case):
             assume(c)
         blocks = sm.make_blocks(NB, graft=graft)
         stub, gobj, step_t = sm.run_group_step(h, blocks, alias=False)
-        return h, blocks
+        oracle = torch_oracle(target, h, NB)
+        return h, blocks, oracle
 
     paths = Explorer().run(fn)
     out = []
@@ -140,11 +178,12 @@ def _warmup_case(case):
             out.append(result(f"{func}/no-exception{tag}", func, "unknown" if p.outcome == "abort" else "violated", text=repr(p.value), case=case))
             continue
         okp += 1
-        h, blocks = p.value
+        h, blocks, oracle = p.value
         hyp = p.cond()
         for b in range(NB):
             # sqrt axiom instances for the oracle's sqrt terms
             tu = torch_update(target, b)
+            orc = oracle[b]
             ax = []
             V = z3.Select(z3.Array(f"V{b}", z3.IntSort(), z3.RealSort()), IDX)
             if target in ("adam", "adamw"):
@@ -157,8 +196,15 @@ def _warmup_case(case):
                 ax.append(z3.And(SQRT(vv / bc2) >= 0, SQRT(vv) >= 0, SQRT(bc2) > 0))
             hyp_b = z3.And(hyp, V >= 0, *ax)
             rp = dict(kind="warmup", target=target)
-            out.append(prove(f"{func}/warmup.parameter=torch.optim.{target}{tag}/b{b}", func, hyp_b, blocks[b]["w"].at(IDX) == tu["w"],
-                             model_vars=mv, text=f"parameter after a warm-up step equals torch.optim {target}'s", case=case, replay=rp, timeout_s=20))
+            out.append(prove(f"{func}/warmup.parameter=real-torch.optim.{target}-step{tag}/b{b}", func, hyp_b, blocks[b]["w"].at(IDX) == orc["w"].at(IDX),
+                             model_vars=mv, text=f"parameter after a warm-up step equals the one produced by the REAL torch.optim._single_tensor_{target} executed on the same symbolic state",
+                             case=case, replay=rp, timeout_s=20))
+            for nm, label in (("F", "exp_avg"), ("V", "second-moment state"), ("M", "momentum_buffer")):
+                if nm in orc and blocks[b].get(nm) is not None:
+                    out.append(prove(f"{func}/warmup.{label}=real-torch.optim.{target}-state{tag}/b{b}", func, hyp_b, blocks[b][nm].at(IDX) == orc[nm].at(IDX),
+                                     kind="auxiliary", model_vars=mv, text=f"carried state {label} equals torch's (auxiliary: state correspondence invariant)", case=case, replay=rp, timeout_s=20))
+            out.append(prove(f"{func}/warmup.parameter=torch.optim.{target}{tag}/b{b}", func, hyp_b, blocks[b]["w"].at(IDX) == tu["w"], kind="auxiliary",
+                             model_vars=mv, text=f"(auxiliary cross-check) parameter equals the documented torch.optim {target} rule", case=case, replay=rp, timeout_s=20))
             for nm, label in (("F", "exp_avg"), ("V", "second-moment state"), ("M", "momentum_buffer")):
                 if nm in tu and blocks[b].get(nm) is not None:
                     out.append(prove(f"{func}/warmup.{label}=torch.optim.{target}{tag}/b{b}", func, hyp_b, blocks[b][nm].at(IDX) == tu[nm],
